@@ -797,7 +797,7 @@ func (p *c08Prog) transfer(h, g, cs, ce int, dry bool) bool {
 	case cs >= e2:
 		s, e = e2, cs
 	case ce <= s2:
-		s, e = s2, ce
+		s, e = ce, s2 // the interval between the two (since /repo 9024ff6)
 	default:
 		s, e = cs, ce
 		if s2 > s {
